@@ -13,7 +13,17 @@ Case kinds
   composite random expressions (products, quotients, integer powers, parentheses, prefixes, numeric
             constants, square roots of squares), each evaluated in a freshly imported library: factor and
             powers vs the reference, conversion into a second random expression of the same dimension,
-            simplify_unit(e) must parse back to the same (powers, factor, offset)
+            simplify_unit(e) must parse back to the same (powers, factor, offset), and the conversion between
+            e and simplify_unit(e) through is_compatible / unit_conversion / convert_units must be the identity
+  roots     inverse-integer exponents (**0.5 .5 (1/2) (1./3) 0.25 0.2 (1/6), also negative) of radicands whose
+            DIMENSION is a perfect power but whose written form is not: products of different units of one
+            dimension ((ft*inch)**0.5, ((ft/s)*(inch/min))**0.5, (ft*inch/(s*min))**0.5), derived units completed
+            to a perfect power ((J/kg)**0.5, (Pa/(kg/m**3))**0.5, (ha)**0.5), numeric constants / reciprocals
+            ((4*m**2)**0.5, (1/s**2)**0.5), roots inside roots; bare or embedded in a larger expression.  Judged
+            like `composite`; the reference keeps irrational roots exact as Q**(1/d)
+  declared  root and ordinary composite expressions used as `units=` of an IndepVarComp output and an ExecComp
+            output of a two-component model: get_val in the declared units, in base units written from the
+            reference's powers, in a second expression, and through a connection into a base-unit input
   order     the same lookup in a fresh library and after a shuffled prelude of other lookups must give the
             same validity, factor and powers (the unit table and the cache are mutated by prefix expansion)
 
@@ -37,6 +47,10 @@ TECHNIQUE = 'runtime monitoring: exact-arithmetic reference of the unit library 
 RULE = ('all 140 library units; all ordered pairs of library units plus 34 prefixed units (values 0, +-1, 3.7, '
         '1e12, -1e-12, 273.15, -459.67); all compatible triples of library units; random composite expressions '
         'of depth <= 4 over library and prefixed atoms with * / ** ( ) numeric constants and (x**2)**0.5; '
+        'roots of degree 2..6 (positive and negative inverse-integer exponents in 7 spellings) of products of '
+        'different same-dimension units, of derived units completed to a perfect power, of radicands with numeric '
+        'constants / leading 1/, and of roots, bare or embedded; the same expressions declared as units of model '
+        'variables and read back; '
         'order-independence of prefixed lookups after random preludes; distinct = distinct expression strings / '
         'unit tuples; non-trivial = compatible pair of different units, triple, accepted composite, order case')
 LEVEL_TEXT = ('exhaustive over the shipped unit library for single units, pairs and compatible triples; random '
@@ -48,12 +62,20 @@ ASSUMPTIONS = ['the reference semantics of names: a library unit name wins; othe
                'expressions OpenMDAO rejects (returns None / raises) are outside the property and only counted',
                'expressions whose factor, or the factor of one of their sub-expressions, leaves [1e-250, 1e250] are skipped (floating-point over/underflow is not the subject)',
                'composite cases run in a freshly imported library, so only `order` cases depend on history',
-               'float-literal integer powers (m**2.0) are rejected by OpenMDAO by design and not generated']
+               'float-literal integer powers (m**2.0) are rejected by OpenMDAO by design and not generated',
+               'a root is evaluated by the implementation as factor ** float(1/r): unless r is a power of two the '
+               'exponent carries a rounding of 2**-53/r that is amplified by |ln(factor)|; the tolerance includes it',
+               'declared-variable cases are run only for expressions whose simplify_unit result was judged correct '
+               '(otherwise the simplify violation is the report) and whose dimension is not empty']
 MIN_JUDGED = {'quick': 20000, 'thorough': 40000}
 REQUIRED_COUNTERS = ['obs:unit', 'obs:pair:compatible', 'obs:pair:incompatible-raises', 'obs:pair:offset',
                      'obs:roundtrip', 'obs:triple', 'obs:triple:offset', 'obs:composite', 'obs:composite:prefixed',
                      'obs:composite:power', 'obs:composite:root', 'obs:composite:number', 'obs:composite:convert',
-                     'obs:simplify', 'obs:simplify:none', 'obs:order', 'obs:order:da-prefix',
+                     'obs:simplify', 'obs:simplify:none', 'obs:simplify:convert-to-simplified',
+                     'obs:composite:root-of-product', 'obs:composite:root:mixed-factors',
+                     'obs:composite:root:mixed-fraction', 'obs:composite:root:derived', 'obs:composite:root:number',
+                     'obs:composite:root:nested', 'obs:composite:root:negative', 'obs:composite:root:embedded',
+                     'obs:root:irrational-factor', 'obs:root:result-has-denominator', 'obs:declared', 'obs:order', 'obs:order:da-prefix',
                      'obs:order:compound-prefix', 'obs:order:prefixed', 'obs:order:underscore-unit-with-prefixed',
                      'obs:order:exponent-literal-with-prefixed']
 SHARD_TIMEOUT = {'quick': 600, 'thorough': 2400}
@@ -629,6 +651,11 @@ def judge_composite(case, acc):
     acc.count('obs:composite')
     for ft in feats:
         acc.count('obs:composite:' + ft)
+    if 'root-of-product' in feats:
+        if not r.exact():
+            acc.count('obs:root:irrational-factor')
+        if any(x < 0 for x in r.powers):
+            acc.count('obs:root:result-has-denominator')
     bad = False
     fp = fingerprint(['composite', e])
     if [float(x) for x in pu._powers] != [float(x) for x in r.powers]:
